@@ -308,7 +308,7 @@ inline void read_block(BitReader &br, int level, BlockInfo &b, std::string *out,
   for (int t = 0; t < b.n_groups; t++) canon[t].build(b.tables[t].len);
   const uint32_t cap = 100000u * (unsigned)level;
   std::vector<uint8_t> tt;  // the block after the inverse MTF (what the BWT produced)
-  tt.reserve(std::min<uint32_t>(cap, 1u << 20));
+  tt.reserve(std::min<uint32_t>(cap, 1u << 12));
   uint8_t mtf[256];
   for (int i = 0; i < b.n_in_use; i++) mtf[i] = (uint8_t)i;
   const int EOB = b.n_in_use + 1;
